@@ -879,7 +879,7 @@ func (s *Script) appendOp(o *op, left, right any) (pb *precBuf) {
 // parenthesis and a left operand that ends with an open ! is wrapped or the !
 // would capture the operator when read back.
 func (s *Script) appendOperand(buf []byte, v any, prec byte, right bool) []byte {
-	if pb, ok := v.(*precBuf); ok && ((right && prec == pb.prec && !pb.not) || (!right && pb.not)) {
+	if pb, ok := v.(*precBuf); ok && ((right && prec == pb.prec) || (!right && pb.not)) {
 		buf = append(buf, '(')
 		buf = append(buf, pb.buf...)
 		return append(buf, ')')
